@@ -6,6 +6,7 @@
   regenerated from coordinator.go on every run.  Theorems are stated for EVERY backend and world.
 -/
 import BurrowVerif.Proofs.Http
+import BurrowVerif.Proofs.HttpViper
 import BurrowVerif.Generated.Http
 
 namespace Burrow.Props.C16
@@ -93,21 +94,23 @@ theorem consumer_status (ps : Params) (full : Bool) :
   ⟨fun _ _ h => by rw [consumerStatus_found be w ps full h], fun _ h => consumerStatus_notfound be w ps full h⟩
 
 /-- config-backed routes: a name that is a single key segment and is not one of the configured
-    modules of that kind gets 404 with `error=true` (names containing dots: see `dotted_name_witness`) -/
-theorem unknown_config_is_404 (c : Cfg) (kind name n : String) (fs : List (String × String × Getter)) (b : Bool)
+    modules of that kind gets 404 with `error=true` (requested names containing dots: see
+    `dotted_name_witness`; `Plain`: no configured key contains a dot — otherwise viper's longest-prefix
+    resolution applies, see `Props/C18.lean: dotted_module_leak_witness`) -/
+theorem unknown_config_is_404 (c : Cfg) (hpl : c.Plain) (kind name n : String) (fs : List (String × String × Getter)) (b : Bool)
     (hseg : keyPath name = [n]) (hunknown : n ∉ c.children [kind]) :
     moduleDetail c kind name fs b = notFoundErr := by
   have : c.isSet [kind, n] = false := by
     cases h : c.isSet [kind, n] with
     | false => rfl
     | true => exact absurd ((isSet_child c kind n).mp h) hunknown
-  simp [moduleDetail, moduleDetailAt, hseg, this]
+  simp [moduleDetail, moduleDetailAt, hseg, vSet_plain hpl, this]
 
-theorem known_config_is_200 (c : Cfg) (kind name n : String) (fs : List (String × String × Getter)) (b : Bool)
+theorem known_config_is_200 (c : Cfg) (hpl : c.Plain) (kind name n : String) (fs : List (String × String × Getter)) (b : Bool)
     (hseg : keyPath name = [n]) (hknown : n ∈ c.children [kind]) :
     (moduleDetail c kind name fs b).code = 200 ∧ (moduleDetail c kind name fs b).err = some false := by
   have : c.isSet [kind, n] = true := (isSet_child c kind n).mpr hknown
-  simp [moduleDetail, moduleDetailAt, hseg, this, ok]
+  simp [moduleDetail, moduleDetailAt, hseg, vSet_plain hpl, this, ok]
 
 /-- **reads are pure**: no handler other than DELETE changes the world, except that a consumer
     detail / status read leaves it as the backend's lookup does … -/
